@@ -72,7 +72,9 @@ Print Assumptions C09_handler_cap_example.
    `_last_empty`), read_bufsize >= 1, Content-Length / chunked / until-EOF framing, with or without transport flow
    control, every history and fuel: while the connection is open, no payload error is set and EOF has not been fed, an empty buffer
    implies that the parser holds no unprocessed input and that reading is not paused - the consumer waits for
-   the network, never for a resume that nobody will issue.  (Before dc85988 this was refuted for chunked bodies;
+   the network, never for a resume that nobody will issue.  After EOF has been fed reads never block at all
+   (they return what is buffered, then b""); what happens once the connection is lost is C09_reaches_eof.
+   (Before dc85988 this was refuted for chunked bodies;
    the refuting history is now the regression example below.) *)
 Theorem C09_progress :
   forall (H : Type) (hnew : N -> H) (hstep : H -> bytes -> N -> option (option (H * bytes)))
